@@ -10,6 +10,7 @@ against the Lean specification (SigModel/Spec/Logs.lean) — see evidence and kn
 import SigModel.Gen.TimeRange
 import SigModel.Spec.Logs
 import SigModel.Lemmas.C02Kd
+import SigModel.Lemmas.C02Sub
 
 namespace SigModel.Props.C02
 open SigModel.Gen SigModel.Spec
@@ -406,5 +407,80 @@ theorem string_literal_vs_non_string_old_counterexample :
   decide
 
 end Kernel
+
+/-! ### free-text terms and phrases: the word matcher `utils.IsSubWordPresent` (model `Bloom.subWord`, tied by the suites
+subword — C02 — and bloom — C03) -/
+section FreeText
+open SigModel.Bloom SigModel.Tlv
+
+/-- the free-text matcher, for EVERY haystack and needle: the needle is present iff the haystack is `pre ++ mid ++ post`
+where `mid` equals the needle (exactly, or up to ASCII case when the search is case-insensitive), `pre` is empty or ends
+with a space and `post` is empty or starts with a space — the needle occurs between token boundaries, wherever: the first
+occurrence need not be the one -/
+theorem subWord_iff_token_rule (ci : Bool) (hay needle : Bytes) :
+    subWord ci hay needle = true ↔
+      ∃ pre mid post, hay = pre ++ mid ++ post ∧ mid.length = needle.length ∧ bytesEq ci mid needle = true ∧
+        (pre = [] ∨ pre.getLast? = some 32) ∧ (post = [] ∨ post.head? = some 32) := by
+  rw [subWord_iff_index]
+  constructor
+  · rintro ⟨i, hi, he, hb, ha⟩
+    refine ⟨hay.take i, (hay.drop i).take needle.length, hay.drop (i + needle.length), ?_, ?_, he, ?_, ?_⟩
+    · have h1 : hay = hay.take i ++ hay.drop i := (List.take_append_drop i hay).symm
+      have h2 : hay.drop i = (hay.drop i).take needle.length ++ (hay.drop i).drop needle.length :=
+        (List.take_append_drop needle.length (hay.drop i)).symm
+      rw [List.drop_drop] at h2
+      rw [List.append_assoc, ← h2]; exact h1
+    · simp; omega
+    · rcases hb with rfl | hb
+      · left; simp
+      · by_cases h0 : i = 0
+        · left; simp [h0]
+        · right
+          rw [List.getLast?_take]
+          have : ¬ i = 0 := h0
+          simp [this, hb]
+    · rcases ha with ha | ha
+      · left; simp [ha]
+      · right; simpa [List.head?_drop] using ha
+  · rintro ⟨pre, mid, post, rfl, hl, he, hb, ha⟩
+    refine ⟨pre.length, by simp; omega, ?_, ?_, ?_⟩
+    · have : (List.drop pre.length (pre ++ mid ++ post)).take needle.length = mid := by
+        rw [List.append_assoc, List.drop_left', ← hl, List.take_left']
+        · rfl
+        · rfl
+      rw [this]; exact he
+    · rcases hb with rfl | hb
+      · left; rfl
+      · by_cases h0 : pre.length = 0
+        · left; exact h0
+        · right
+          have hlt : pre.length - 1 < pre.length := by omega
+          rw [List.append_assoc, List.getElem?_append_left hlt]
+          rw [List.getLast?_eq_getElem?] at hb
+          exact hb
+    · rcases ha with rfl | ha
+      · left; simp; omega
+      · right
+        have : pre.length + needle.length = (pre ++ mid).length := by simp [hl]
+        rw [this, List.getElem?_append_right (Nat.le_refl _)]
+        simpa [List.head?_eq_getElem?] using ha
+
+/-- exact case (SPL `CASE(…)`): `mid` IS the needle -/
+theorem subWord_exact_iff_token_rule (hay needle : Bytes) :
+    subWord false hay needle = true ↔
+      ∃ pre post, hay = pre ++ needle ++ post ∧ (pre = [] ∨ pre.getLast? = some 32) ∧ (post = [] ∨ post.head? = some 32) := by
+  rw [subWord_iff_token_rule]
+  constructor
+  · rintro ⟨pre, mid, post, h, _, he, hb, ha⟩
+    have : mid = needle := by simpa [bytesEq] using he
+    subst this
+    exact ⟨pre, post, h, hb, ha⟩
+  · rintro ⟨pre, post, h, hb, ha⟩
+    exact ⟨pre, needle, post, h, rfl, by simp [bytesEq], hb, ha⟩
+
+/-- the witness of seeded change C02-2: "xtimeout timeout" holds the word "timeout" (its FIRST occurrence is glued to x) -/
+example : subWord false [120, 116, 105, 109, 101, 111, 117, 116, 32, 116, 105, 109, 101, 111, 117, 116] [116, 105, 109, 101, 111, 117, 116] = true := by decide
+
+end FreeText
 
 end SigModel.Props.C02
